@@ -177,6 +177,19 @@ func (w *World) EnumIssues(fm *FileModel) []Issue {
 		if len(ei.Elems) != wantN {
 			out = append(out, Issue{Rule: "A-ENUM", Construct: "value table does not list every enum value", Msg: fmt.Sprintf("%s: the schema lists %d values, the table %v has %d: a listed value is rejected (or an unlisted one accepted)", what, wantN, ei.ElemText, len(ei.Elems))})
 		}
+		// a listed value reaches the table through exact conversions only: a detour through a NARROWER integer type wraps values
+		// beyond its range (the listed value is then refused and another one accepted)
+		for i, txt := range ei.ElemText {
+			if h := fm.HoleOf(txt); h != nil {
+				for _, t := range h.Tr {
+					for _, nt := range []string{"int8", "int16", "int32", "uint8", "uint16", "uint32"} {
+						if t == "trunc-"+nt || t == "narrow-"+nt {
+							out = append(out, Issue{Rule: "A-ENUM", Construct: "enum value converted through a narrower integer type (" + nt + ")", Msg: fmt.Sprintf("%s: element %d of the value table (%s) is the listed value converted through %s: a listed value beyond that type's range is stored as another number, so it is refused and an unlisted value accepted", what, i, txt, nt)})
+						}
+					}
+				}
+			}
+		}
 		// A-DYN: dynamic type of each table element vs the static type of the comparand
 		for i, k := range ei.Elems {
 			if ei.Wrapped {
